@@ -669,11 +669,39 @@ func RenderMSOWrapperTableClose(w io.StringWriter) error {
 	return RenderMSOConditional(w, "</td></tr></table></td></tr></table>")
 }
 
+// How much of a wrapper's Outlook table structure is open at a point of its children loop.
+// The wrapper keeps track of it so that every closing sequence it writes matches what is
+// actually open, whatever mix of sections and raw content it contains.
+const (
+	MSOWrapperNone    = iota // nothing: a wrapper without renderable children writes a complete, empty table
+	MSOWrapperCell           // <table><tr><td>: the wrapper table and one of its cells
+	MSOWrapperSection        // <table><tr><td><table><tr><td>: and a section table inside that cell
+)
+
+// msoWrapperRowClose closes what is open down to the row level of the wrapper table.
+func msoWrapperRowClose(depth int) string {
+	switch depth {
+	case MSOWrapperSection:
+		return "</td></tr></table></td></tr>"
+	case MSOWrapperCell:
+		return "</td></tr>"
+	}
+	return ""
+}
+
+// RenderMSOWrapperClose closes the wrapper's Outlook table structure from the given depth.
+func RenderMSOWrapperClose(w io.StringWriter, depth int) error {
+	if depth == MSOWrapperNone {
+		return nil
+	}
+	return RenderMSOConditional(w, msoWrapperRowClose(depth)+"</table>")
+}
+
 // RenderMSOSectionTransition renders MSO conditional comment that bridges between sections in a wrapper.
 // This generates the pattern: <!--[if mso | IE]></td></tr><tr><td width="600px"><![endif]-->
 // widthPx should typically be the body width (600 by default).
-func RenderMSOSectionTransition(w io.StringWriter, outerWidthPx int, innerWidthPx int, align string, bgColor string, closeWrapper bool, forceWrapperTable bool) error {
-	return RenderMSOSectionTransitionWithContent(w, outerWidthPx, innerWidthPx, align, bgColor, closeWrapper, forceWrapperTable, nil)
+func RenderMSOSectionTransition(w io.StringWriter, outerWidthPx int, innerWidthPx int, align string, bgColor string, fromDepth int, toSection bool) error {
+	return RenderMSOSectionTransitionWithContent(w, outerWidthPx, innerWidthPx, align, bgColor, fromDepth, toSection, nil)
 }
 
 // RenderMSOSectionTransitionWithContent renders an MSO section transition that can inject
@@ -681,29 +709,26 @@ func RenderMSOSectionTransition(w io.StringWriter, outerWidthPx int, innerWidthP
 //
 // It produces the sequence: <!--[if mso | IE]></td></tr>{content}<tr><td width="XXXpx"><![endif]-->
 // where {content} is rendered via the provided callback while the conditional comment is still open.
-func RenderMSOSectionTransitionWithContent(w io.StringWriter, outerWidthPx int, innerWidthPx int, align string, bgColor string, closeWrapper bool, forceWrapperTable bool, renderContent func(io.StringWriter) error) error {
+func RenderMSOSectionTransitionWithContent(w io.StringWriter, outerWidthPx int, innerWidthPx int, align string, bgColor string, fromDepth int, toSection bool, renderContent func(io.StringWriter) error) error {
 	if renderContent == nil {
-		return renderMSOSectionTransitionNoContent(w, outerWidthPx, innerWidthPx, align, bgColor, closeWrapper, forceWrapperTable)
+		return renderMSOSectionTransitionNoContent(w, outerWidthPx, innerWidthPx, align, bgColor, fromDepth, toSection)
 	}
 
-	if closeWrapper || forceWrapperTable {
-		if _, err := w.WriteString("<!--[if mso | IE]></td></tr></table></td></tr><![endif]-->"); err != nil {
-			return err
-		}
-
-		if err := renderContent(w); err != nil {
-			return err
-		}
-
-		return renderMSOSectionTransitionReopen(w, outerWidthPx, innerWidthPx, align, bgColor)
+	if fromDepth == MSOWrapperNone {
+		// nothing is open: the content needs nothing closed in front of it or reopened behind it
+		return renderContent(w)
 	}
 
-	if _, err := w.WriteString("<!--[if mso | IE]></td></tr><![endif]-->"); err != nil {
+	if _, err := w.WriteString("<!--[if mso | IE]>" + msoWrapperRowClose(fromDepth) + "<![endif]-->"); err != nil {
 		return err
 	}
 
 	if err := renderContent(w); err != nil {
 		return err
+	}
+
+	if toSection {
+		return renderMSOSectionTransitionReopen(w, outerWidthPx, innerWidthPx, align, bgColor)
 	}
 
 	if _, err := w.WriteString("<!--[if mso | IE]><tr><td class=\"\""); err != nil {
@@ -729,22 +754,14 @@ func RenderMSOSectionTransitionWithContent(w io.StringWriter, outerWidthPx int, 
 	return nil
 }
 
-func renderMSOSectionTransitionNoContent(w io.StringWriter, outerWidthPx int, innerWidthPx int, align string, bgColor string, closeWrapper bool, forceWrapperTable bool) error {
+func renderMSOSectionTransitionNoContent(w io.StringWriter, outerWidthPx int, innerWidthPx int, align string, bgColor string, fromDepth int, toSection bool) error {
 	if innerWidthPx <= 0 {
 		innerWidthPx = outerWidthPx
 	}
-	if closeWrapper {
-		if _, err := w.WriteString("<!--[if mso | IE]></td></tr></table></td></tr><tr><td class=\"\""); err != nil {
-			return err
-		}
-	} else if forceWrapperTable {
-		if _, err := w.WriteString("<!--[if mso | IE]></td></tr><tr><td class=\"\""); err != nil {
-			return err
-		}
-	} else {
-		if _, err := w.WriteString("<!--[if mso | IE]></td></tr><tr><td class=\"\""); err != nil {
-			return err
-		}
+	if _, err := w.WriteString("<!--[if mso | IE]>" + msoWrapperRowClose(fromDepth) + "<tr><td class=\"\""); err != nil {
+		return err
+	}
+	if !toSection {
 		if align != "" {
 			if _, err := w.WriteString(" " + constants.AttrAlign + "=\""); err != nil {
 				return err
